@@ -120,6 +120,8 @@ CALLBACK_PARAMS = {
 
 # ------------------------------------------------------------------- tables
 IMM = 0  # IR variable 0: never assigned (no roots)
+FRESHV = -1  # pseudo variable: a newly allocated object holding no references that has not been named yet
+# (arithmetic sub-results, np.zeros(...)): materialised as `join t []` only where it is bound, passed or returned
 
 NP_FRESH = {
     "array", "zeros", "ones", "empty", "zeros_like", "ones_like", "empty_like", "full", "full_like", "arange",
@@ -413,6 +415,11 @@ class FT:
                 self.locals_.add(n.id)
             if isinstance(n, ast.ExceptHandler) and n.name:
                 self.locals_.add(n.name)
+        # IR variables: 0 reserved, then one per Python local, then temporaries.  A temporary never
+        # outlives the Python statement that created it, so its number is reused afterwards.
+        for nm in list(fi.params) + sorted(self.locals_ - set(fi.params)):
+            self.var(nm)
+        self.maxvars = self.nvars
         self.evidence = {}
         for n in ast.walk(fi.node):
             if (isinstance(n, ast.Call) and isinstance(n.func, ast.Attribute)
@@ -441,10 +448,38 @@ class FT:
 
     def tmp(self):
         self.nvars += 1
+        self.maxvars = max(self.maxvars, self.nvars)
         self.varline[self.nvars - 1] = self.curline
         return self.nvars - 1
 
+    def mat(self, v):
+        if v == FRESHV:
+            t = self.tmp()
+            self.cur.append(("join", t, []))
+            return t
+        return v
+
     def emit(self, *s):
+        tag = s[0]
+        if tag in ("join", "view"):
+            s = (tag, s[1], [y for y in s[2] if y not in (FRESHV, IMM)])
+        elif tag == "alias":
+            if s[2] == FRESHV:
+                s = ("join", s[1], [])
+        elif tag == "call":
+            s = (tag, s[1], s[2], [self.mat(a) for a in s[3]])
+        elif tag in ("mutate", "cmutate"):
+            if s[1] == FRESHV:
+                return                      # in-place change of an unnamed fresh object
+        elif tag == "ret":
+            s = (tag, self.mat(s[1]))
+        elif tag == "absorb":
+            if s[2] == FRESHV:
+                return                      # a fresh object without references taints nothing
+            if s[1] == FRESHV:
+                s = (tag, self.mat(s[1]), s[2])
+        elif tag == "store":
+            s = (tag, s[1], self.mat(s[2]))
         self.cur.append(tuple(s))
 
     def sub(self, fn):
@@ -469,13 +504,17 @@ class FT:
         self.newkinds[name] = kjoin(self.newkinds.get(name), k)
 
     def fresh(self, refs=(), kind=K_ARR):
-        refs = [r for r in refs if r != IMM]
+        refs = [r for r in refs if r not in (IMM, FRESHV)]
+        if not refs:
+            return FRESHV, kind
         t = self.tmp()
         self.emit("join", t, refs)
         return t, kind
 
     def viewof(self, refs, kind=K_UNK):
-        refs = [r for r in refs if r != IMM]
+        if any(r == FRESHV for r in refs) and all(r in (IMM, FRESHV) for r in refs):
+            return FRESHV, kind             # part of an unnamed fresh object
+        refs = [r for r in refs if r not in (IMM, FRESHV)]
         if not refs:
             return IMM, K_IMM
         t = self.tmp()
@@ -487,6 +526,7 @@ class FT:
         alts = list(dict.fromkeys(alts))
         if len(alts) == 1:
             return alts[0]
+        alts = [self.mat(a) for a in alts]
         t = self.tmp()
         ir = [("alias", t, alts[-1])]
         for a in reversed(alts[:-1]):
@@ -1324,7 +1364,7 @@ class FT:
                 self.note_kind(t.id, "arr?")
                 self.emit("mutate", x)
                 nv, _ = self.fresh([], K_ARR)
-                self.emit("ite", [("alias", x, nv)], [])
+                self.emit("ite", [("join", x, [])] if nv == FRESHV else [("alias", x, nv)], [])
                 return
             if kbase(k) in (K_LIST, K_SET, K_DICT):
                 self.note_kind(t.id, kjoin(k, kv) if kbase(kv) == kbase(k) else kbase(k))
@@ -1339,7 +1379,7 @@ class FT:
             if v != IMM:
                 self.emit("absorb", x, v)
             nv, _ = self.fresh([x, v], K_UNK)       # immutable left operand (tuple, number): rebinding
-            self.emit("ite", [("alias", x, nv)], [])
+            self.emit("ite", [("join", x, [])] if nv == FRESHV else [("alias", x, nv)], [])
             return
         if isinstance(t, ast.Subscript):
             if self.is_data_dict(t.value):
@@ -1515,7 +1555,9 @@ class FT:
     def block(self, stmts, abortable=False):
         exits = False
         for i, s in enumerate(stmts):
+            mark = self.nvars
             e = self.stmt(s)
+            self.nvars = mark
             exits = exits or e
             if (e or abortable) and i + 1 < len(stmts):
                 rest, e2 = self.sub(lambda: self.block(stmts[i + 1:], abortable))
@@ -1603,7 +1645,7 @@ def translate_function(w, fi):
         if new == kinds and ft.newlfuncs == lfuncs:
             if ft.soft:
                 raise TranslationError(ft.soft[0])
-            fi.nvars = ft.nvars
+            fi.nvars = ft.maxvars
             fi.callbacks = ft.callbacks
             fi.varline = ft.varline
             fi.used_expr_kinds = ft.used_expr_kinds
@@ -1850,14 +1892,135 @@ def generate():
             "keys": dict(w.keys), "keyfns": keyfns,
             "callback_sites": [c for q in order for c in getattr(w.funcs[q], "callbacks", [])],
             "params": {q: w.funcs[q].params for q in order},
+            "cost": {q: count_stmts(irs[q]) * w.funcs[q].nvars for q in order},
+            "lines": {q: (w.funcs[q].module, w.funcs[q].lineno) for q in order},
             "fparams": {q: {k: sorted(v) for k, v in w.funcs[q].fparams.items() if v} for q in order
                         if any(w.funcs[q].fparams.values())},
             "exempt": {"cpub": CPUB_EXEMPT, "nonstrict": NONSTRICT, "skipped": SKIP_FUNCS}}
     return "\n".join(out) + "\n", info
 
 
+# ------------------------------------------------ summary certificate + check modules
+NCHUNKS = 12
+GEN = os.path.join(fw.LEAN, "AurelVerif", "Gen")
+
+
+def _lake_build(mods, timeout=1500):
+    import fcntl
+    import subprocess
+    lock = open(os.path.join(fw.LEAN, ".build.lock"), "w")
+    fcntl.flock(lock, fcntl.LOCK_EX)
+    try:
+        p = subprocess.run(["timeout", str(timeout), "lake", "build"] + mods, cwd=fw.LEAN,
+                           capture_output=True, text=True)
+    finally:
+        fcntl.flock(lock, fcntl.LOCK_UN)
+        lock.close()
+    return p.returncode, p.stdout + p.stderr
+
+
+def run_driver():
+    """Summaries the (compiled, untrusted) Lean analysis computes for Gen/AliasIR.lean."""
+    import re
+    import subprocess
+    rc, out = _lake_build(["AurelVerif.Gen.AliasIR"])
+    if rc != 0:
+        raise TranslationError("Gen/AliasIR.lean does not build: " + out[-800:])
+    p = subprocess.run(["timeout", "900", "lake", "env", "lean", "--run", "Driver/C02.lean"], cwd=fw.LEAN,
+                       capture_output=True, text=True)
+    if p.returncode != 0:
+        raise TranslationError("Driver/C02.lean failed: " + (p.stderr or p.stdout)[-800:])
+    rows, check = [], None
+    for line in p.stdout.split("\n"):
+        if line.startswith("check "):
+            check = line.split()[1] == "true"
+        m = re.match(r"fn (\d+) (\S+) ok=(\w+) mutA=(\[.*?\]) mutC=(\[.*?\]) retOwn=(\[.*?\]) "
+                     r"retReach=(\[.*?\]) esc=(\[.*?\]) fnOK=(\w+)", line)
+        if m:
+            rows.append({"index": int(m.group(1)), "name": m.group(2), "ok": m.group(3) == "true",
+                         "mutA": eval(m.group(4)), "mutC": eval(m.group(5)), "retOwn": eval(m.group(6)),
+                         "retReach": eval(m.group(7)), "esc": eval(m.group(8)), "fnOK": m.group(9) == "true"})
+    return check, rows
+
+
+def write_check_modules(info, rows, ir_sha):
+    order = info["order"]
+    n = len(order)
+    if len(rows) != n:
+        raise TranslationError("driver reported %d functions, IR has %d" % (len(rows), n))
+    lit = lambda xs: "[" + ", ".join(str(x) for x in xs) + "]"
+    summ = ["-- GENERATED by tools/py2lean/aliasir.py: the summary table computed by Driver/C02.lean for",
+            "-- Gen/AliasIR.lean (ir-sha: %s).  It is only a certificate: `checkFn` re-checks every entry in the kernel." % ir_sha,
+            "import AurelVerif.Gen.AliasIR", "namespace AurelVerif.Gen.AliasIR", "open AurelVerif.Heap", "",
+            "def summaries : List Summ := ["]
+    summ.append(",\n".join("  ⟨%s, %s, %s, %s, %s, %s⟩  -- %d %s" % (
+        str(r["ok"]).lower(), lit(r["mutA"]), lit(r["mutC"]), lit(r["retOwn"]), lit(r["retReach"]), lit(r["esc"]),
+        r["index"], r["name"]) for r in rows).replace("⟩  --", "⟩ /-").replace("\n", " -/\n") + " -/")
+    summ += ["]", "", "end AurelVerif.Gen.AliasIR", ""]
+    # the comment trick above puts the `,` after the comment; rebuild cleanly instead
+    body = []
+    for i, r in enumerate(rows):
+        body.append("  /- %d %s -/ ⟨%s, %s, %s, %s, %s, %s⟩%s" % (
+            r["index"], r["name"], str(r["ok"]).lower(), lit(r["mutA"]), lit(r["mutC"]), lit(r["retOwn"]),
+            lit(r["retReach"]), lit(r["esc"]), "," if i + 1 < n else ""))
+    summ = summ[:7] + body + ["]", "", "end AurelVerif.Gen.AliasIR", ""]
+    fw.write_if_changed(os.path.join(GEN, "AliasSumm.lean"), "\n".join(summ))
+    # contiguous chunks of roughly equal cost (cost ~ statements x variables)
+    cost = [max(1, info["cost"][q]) for q in order]
+    total, bounds, acc = sum(cost), [0], 0
+    for i, c in enumerate(cost):
+        acc += c
+        if acc >= total * len(bounds) / NCHUNKS and len(bounds) < NCHUNKS and i + 1 < n:
+            bounds.append(i + 1)
+    while len(bounds) < NCHUNKS:
+        bounds.append(n)
+    bounds.append(n)
+    for k in range(NCHUNKS):
+        lo, hi = bounds[k], bounds[k + 1]
+        fw.write_if_changed(os.path.join(GEN, "AliasChk%d.lean" % k), "\n".join([
+            "-- GENERATED by tools/py2lean/aliasir.py: functions %d..%d of Gen/AliasIR.lean pass `checkFn`." % (lo, hi - 1),
+            "import AurelVerif.Gen.AliasSumm", "namespace AurelVerif.Gen.AliasIR", "open AurelVerif.Heap", "",
+            "set_option maxRecDepth 100000 in",
+            "theorem chunk%d : (List.range' %d %d).all (checkFn program summaries) = true := by decide +kernel" % (k, lo, hi - lo),
+            "", "end AurelVerif.Gen.AliasIR", ""]))
+    comb = ["-- GENERATED by tools/py2lean/aliasir.py: the chunks together are `checkWith program summaries`.",
+            "import AurelVerif.Lemmas.Heap"] + ["import AurelVerif.Gen.AliasChk%d" % k for k in range(NCHUNKS)] + [
+            "namespace AurelVerif.Gen.AliasIR", "open AurelVerif.Heap", "",
+            "theorem fns_length : program.fns.length = %d := by decide +kernel" % n, "",
+            "theorem program_checked : checkWith program summaries = true := by",
+            "  apply checkWith_of_all", "  intro f hf", "  rw [fns_length] at hf"]
+    for k in range(NCHUNKS):
+        lo, hi = bounds[k], bounds[k + 1]
+        if hi == lo:
+            continue
+        comb += ["  by_cases h%d : f < %d" % (k, hi),
+                 "  · exact all_range' chunk%d f (by omega) (by omega)" % k]
+    comb += ["  omega", "", "end AurelVerif.Gen.AliasIR", ""]
+    fw.write_if_changed(os.path.join(GEN, "AliasCheck.lean"), "\n".join(comb))
+
+
 def regen():
+    """Regenerate Gen/AliasIR.lean and, when it changed, the summary certificate and check modules.
+    Returns (changed, info); info["rows"] = the driver's per-function summaries."""
+    import hashlib
+    import json
     text, info = generate()
-    path = os.path.join(fw.LEAN, "AurelVerif", "Gen", "AliasIR.lean")
+    path = os.path.join(GEN, "AliasIR.lean")
     changed = fw.write_if_changed(path, text)
+    sha = hashlib.sha1(text.encode()).hexdigest()
+    cache = os.path.join(GEN, ".aliasir_rows.json")
+    rows = None
+    if os.path.exists(cache) and os.path.exists(os.path.join(GEN, "AliasCheck.lean")):
+        try:
+            c = json.load(open(cache))
+            if c.get("sha") == sha:
+                rows, info["check"] = c["rows"], c["check"]
+        except Exception:  # noqa
+            rows = None
+    if rows is None:
+        info["check"], rows = run_driver()
+        write_check_modules(info, rows, sha)
+        json.dump({"sha": sha, "check": info["check"], "rows": rows}, open(cache, "w"))
+    info["rows"] = rows
+    info["sha"] = sha
     return changed, info
